@@ -288,6 +288,42 @@ def build(run):
         _loop(run, "Z-C13-a.%s.vocabulary" % engine.lower(), q3, get, witness_factory("vocab"),
               "for every command: element and attribute names belong to the engine's vocabulary")
 
+        # (5) the commands that carry WORDS (spell: the characters; pronounce: the text) put them after the tag, untouched: removing the tags leaves the words
+        for c in ("Spell", "Pronounce"):
+            starts = arms[c][0]
+            lid = "Z-C13-e.%s.words_kept.%s" % (engine.lower(), c)
+            if not starts:
+                run.queries += 1
+                run.holds(lid, note="(no markup for this command)")
+                continue
+            holes = ["h%d" % k for k in range(4)]
+            term, n = fmt_to_smt(starts[0], holes)
+            if n == 0:
+                run.queries += 1
+                run.violated(lid, "%s-%s-words-dropped" % (engine.lower(), c), "%s %s: the start string %r has no place for the words" % (engine, c, starts[0]), {"start": starts[0]})
+                continue
+            w = holes[n - 1]                      # by the code's convention the words are the last format argument
+            word = '(re.+ (re.union (re.range "a" "z") (str.to_re "-")))'
+            tag = '(re.++ (str.to_re "<") (re.* (re.diff re.allchar (re.union (str.to_re "<") (str.to_re ">")))) (str.to_re ">"))'
+            q5 = "".join("(declare-const %s String)(assert (str.in_re %s %s))\n" % (h, h, word if h == w else SAFE) for h in holes[:n])
+            q5 += "(define-fun start () String %s)\n" % term
+            q5 += "(assert (not (and (str.suffixof %s start) (str.in_re (str.substr start 0 (- (str.len start) (str.len %s))) %s))))" % (w, w, tag)
+
+            def w_words(model, engine=engine, c=c):
+                s_, e_ = real_tags(engine, c, "th")
+                stripped = re.sub(r"<[^<>]*>", "", s_ + e_)
+                if stripped == "th":
+                    return None
+                res = mcprobe([("pref", "TTS None"), ("mathml", "<math><msup><mi>x</mi><mi>n</mi></msup></math>"), "speech", ("pref", "TTS " + engine), "speech", ("pref", "TTS None")])
+                plain = re.sub(r"[\s,;]", "", res[2][1]) if res[2][0] == "OK" else None
+                marked = re.sub(r"[\s,;]", "", re.sub(r"<[^<>]*>", "", res[4][1])) if res[4][0] == "OK" else None
+                if plain is not None and plain == marked:
+                    return None
+                return ("%s-%s-words-dropped" % (engine.lower(), c), "%s %s: start %r + end %r leave %r when the tags are removed, the words were %r; x^n: TTS=None %r vs %s without tags %r" % (engine, c, s_, e_, stripped, "th", plain, engine, marked),
+                        {"real_start": s_, "real_end": e_, "api": [res[2], res[4]]})
+            run.smt(lid, q5, get=tuple(holes[:n]), witness=w_words,
+                    claim="%s %s: for every attribute value and every word, the start string is one tag followed by exactly the word" % (engine, c))
+
         # (4) a start tag that can be omitted (empty string for some value) needs an end tag that is omitted too, and vice versa
         for c in COMMANDS:
             starts, ends, start_may_be_empty, end_may_be_empty = arms[c]
